@@ -38,8 +38,26 @@ var pkgNames = map[string]string{"bitstream": "bitstream", "io": "io", "entropy"
 	"hash": "hash", "internal": "internal", "app": "main", ".": "kanzi"}
 
 // overlayFiles returns virtual path -> real path for all harness files (+ vh lib) of the given package dirs.
+// refOverlay maps the frozen reference sources (/verif/reference/v2, import paths rewritten to .../v2/zzref/...)
+// into the module as virtual packages, so that current and reference code live in one SSA program (C10).
+func refOverlay(out map[string]string) {
+	root := filepath.Join(verifDir, "reference", "v2")
+	filepath.Walk(root, func(p string, info os.FileInfo, err error) error {
+		if err == nil && !info.IsDir() && strings.HasSuffix(p, ".go") {
+			rel, _ := filepath.Rel(root, p)
+			out[filepath.Join(repoDir, "zzref", rel)] = p
+		}
+		return nil
+	})
+}
+
+var useRef = false
+
 func overlayFiles(pkgDirs []string, scratch string) (map[string]string, error) {
 	out := map[string]string{}
+	if useRef {
+		refOverlay(out)
+	}
 	tmpl, err := os.ReadFile(filepath.Join(harnessDir, "vh.go.tmpl"))
 	if err != nil {
 		return nil, err
@@ -55,6 +73,17 @@ func overlayFiles(pkgDirs []string, scratch string) (map[string]string, error) {
 			if strings.HasSuffix(e.Name(), ".go") {
 				out[filepath.Join(repoDir, pd, "zz_vh_"+e.Name())] = filepath.Join(dir, e.Name())
 				n++
+			}
+		}
+		if useRef {
+			// harnesses that compare against the frozen reference sources (only loadable with the zzref overlay)
+			rdir := filepath.Join(harnessDir, pd+"_ref")
+			if rents, err := os.ReadDir(rdir); err == nil {
+				for _, e := range rents {
+					if strings.HasSuffix(e.Name(), ".go") {
+						out[filepath.Join(repoDir, pd, "zz_vhref_"+e.Name())] = filepath.Join(rdir, e.Name())
+					}
+				}
 			}
 		}
 		if n == 0 {
@@ -85,7 +114,7 @@ var loadMu sync.Mutex
 var loadCache = map[string]*Loaded{}
 
 func loadProgram(pkgDirs []string, scratch string) (*Loaded, error) {
-	key := strings.Join(pkgDirs, ",")
+	key := strings.Join(pkgDirs, ",") + fmt.Sprint(useRef)
 	loadMu.Lock()
 	defer loadMu.Unlock()
 	if l, ok := loadCache[key]; ok {
